@@ -220,6 +220,13 @@ class KeyCache(t.Generic[P, T]):
 
         self.full = self.maxsize == 0
 
+    def cache_clear(self) -> None:
+        """Forget every cached result"""
+        with self._lock:
+            self.cache.clear()
+            self._root[:] = [self._root, self._root, None, None]
+            self.full = self.maxsize == 0
+
     def __call__(self, *args: P.args, **kwargs: P.kwargs) -> T:
         if self.maxsize is None:
             key = self.key_f(*args, **kwargs)
